@@ -301,6 +301,30 @@ SLevelsFrom(ls, l, pl) ==
          \o SLevelsFrom(ls, l + 1, pl)
 SLevels(ls, pl) == IF ls = <<>> THEN <<>> ELSE <<ls[1]>> \o SLevelsFrom(ls, 1, pl)
 
+(************* the other merge of the stored profiles: the pprof payloads *************)
+(* SelectMergeProfile merges the stored PAYLOADS (reader ProfileMergeV2.Merge after sanitizeProfile), not the tree   *)
+(* rows.  A payload carries the profile's samples; the merger keeps one sample per distinct stack (sampleTable keyed *)
+(* by the rewritten location ids) and adds the value vectors, profile after profile.  What a location carries        *)
+(* besides its function (a mapping or none, dense or sparse mapping ids, one or several mappings, address, ids) is   *)
+(* no part of a frame's identity: LocClasses names the classes the binding realises every frame in, and the merged   *)
+(* weight is defined without them -- the same for every class.                                                       *)
+LocClasses == {"mapped", "unmapped", "sparse_mapping_id", "second_mapping"}
+EmptyPM == [st \in {} |-> Zero]
+VScale(n, v) == [j \in Types |-> n * v[j]]
+PMAddN(pm, s, n) == IF s.stack \in DOMAIN pm THEN [pm EXCEPT ![s.stack] = VAdd(@, VScale(n, s.val))]
+                    ELSE (s.stack :> VScale(n, s.val)) @@ pm
+RECURSIVE PMAddBag(_, _, _)
+PMAddBag(pm, b, S) == IF S = {} THEN pm
+                      ELSE LET s == CHOOSE s \in S : TRUE IN PMAddBag(PMAddN(pm, s, b[s]), b, S \ {s})
+RECURSIVE PMFold(_, _, _)
+PMFold(pm, bs, i) == IF i > Len(bs) THEN pm ELSE PMFold(PMAddBag(pm, bs[i], DOMAIN bs[i]), bs, i + 1)
+PMergeMech(bs) == PMFold(EmptyPM, bs, 1)                                   \* the merger, profile after profile
+PMergeDef(bs)  == LET sts == UNION {{s.stack : s \in DOMAIN bs[i]} : i \in 1..Len(bs)}
+                  IN  [st \in sts |-> [j \in Types |->
+                         SumF([i \in 1..Len(bs) |-> SumF([s \in {x \in DOMAIN bs[i] : x.stack = st} |-> bs[i][s] * s.val[j]])])]]
+PMSum(pm) == [j \in Types |-> SumF([st \in DOMAIN pm |-> pm[st][j]])]
+PMBag(pm) == [s \in {[stack |-> st, val |-> pm[st]] : st \in DOMAIN pm} |-> 1]   \* the merged payload read as a profile
+
 (******************************* behaviour *********************************)
 Total == SumF([i \in 1..Len(profs) |-> BagSize(profs[i])])
 
@@ -347,6 +371,12 @@ MergeCommAssoc ==
     /\ \A p \in Perms(N) : MergeAll([i \in 1..N |-> stored[p[i]]]) = Merged
     /\ N = 3 => MergeDef(MergeDef(stored[1], stored[2]), stored[3]) = MergeDef(stored[1], MergeDef(stored[2], stored[3]))
     /\ N >= 2 => MergeDef(stored[1], stored[2]) = MergeDef(stored[2], stored[1])
+\* C16 (3b): merging the stored PAYLOADS (pprof merge) in any order of the profiles = the definition; the merged profile
+\* carries the sums of the inputs, stack by stack and in total, and its call tree is the merged tree of the stored trees
+PayloadMerged == PMergeDef(profs)
+PayloadMergeEqDef == \A p \in Perms(N) : PMergeMech([i \in 1..N |-> profs[p[i]]]) = PayloadMerged
+PayloadMergeSum   == PMSum(PayloadMerged) = [j \in Types |-> SumF([i \in 1..N |-> SampleSum(profs[i])[j]])]
+PayloadMergeTree  == BuildDef(PMBag(PayloadMerged)) = Merged
 \* reader mechanism = definition (two row orders here; all row orders by RowsCommute; the real code is driven through
 \* arbitrary orders and validated by MC_ProfTreeObs)
 ReaderMergeEqDef ==
